@@ -236,6 +236,8 @@ static FILE* OpenVirtual(const char* path, const char* mode) {
   auto it = disk->files.find(p);
   if (r) {
     if (it == disk->files.end()) { errno = ENOENT; return nullptr; }
+    // (the real fopen() opens a directory for reading and the first fread() fails with EISDIR: the same to ninja's ReadFile)
+    if (it->second.dir) { errno = EISDIR; return nullptr; }
     if (p == "build.ninja") manifest_reads++;
   } else {
     if (it != disk->files.end() && it->second.dir) { errno = EISDIR; return nullptr; }
@@ -311,7 +313,7 @@ static void FillStat(const File& f, struct stat* st) {
   st->st_mode = f.dir ? (S_IFDIR | 0755) : (S_IFREG | 0644);
   st->st_nlink = 1;
   st->st_size = (off_t)f.data.size();
-  int64_t ns = TickToNs(f.mtime);
+  int64_t ns = f.mtime == -1 ? 0 : TickToNs(f.mtime);   // -1: exactly the epoch (scenario op "epoch")
   st->st_mtim.tv_sec = ns / 1000000000LL;
   st->st_mtim.tv_nsec = ns % 1000000000LL;
   st->st_ctim = st->st_atim = st->st_mtim;
